@@ -271,7 +271,7 @@ def M12():
         pars=[
             dict(name="test", format="probability", default=0.2, targetable="y"),
             dict(name="ptx", format="proportion", default=0.6, targetable="y", min=0, max=1),
-            dict(name="treat", format="number", default=20, targetable="y"),
+            dict(name="treat", format="number", default=20, targetable="y", timescale=0.5),
             dict(name="loss", format="rate", default=0.1, targetable="y", max=5),
             dict(name="ret", format="probability", default=0.3),
         ],
